@@ -1368,8 +1368,13 @@ def run(ctx):
                 cls2, rows2, err2 = run_mlr(ctx, args, recs)
                 n_cli += 1
                 if cls2 != "ok" or rows != rows2:
+                    # step slwin keeps records it has already emitted in its look-back window; with --jvquoteall (used by this
+                    # harness) the writer goroutine turns their values into strings concurrently: a timing-dependent "(error)"
+                    # (finding step-slwin-emitted-record-race, c10.findings.md 7); any other difference is a plain violation
+                    racy = cls2 == "ok" and any("slwin" in a for a in args) and any(t == "(error)" for r in rows2 for _, t in r)
                     ctx.violation({"broken": "command-line path differs from in-process verb", "args": args, "input": dkvp(recs, ";", ":").decode(),
-                                   "observed_cli": rows2 if cls2 == "ok" else err2, "observed_inprocess": rows}, found_input=False)
+                                   "observed_cli": rows2 if cls2 == "ok" else err2, "observed_inprocess": rows,
+                                   **({"class": "step-slwin-emitted-record-race"} if racy else {})}, found_input=racy)
                 via = "mlr"
             ctx.dist("verb:" + s["verb"] + (":w" if s.get("w") else "") + (":i" if s.get("interp") else ""))
             ctx.dist("profile:" + s.get("profile", "-"))
